@@ -89,6 +89,9 @@ def judge (goAns : List String) (case : List String) : Option String :=
       let pinned ← parseNats pinned
       let alphabet ← parseNats alphabet
       let l ← parseNat? l
+      -- a rule-level mismatch is followed by a string search in both directions, deeper than the
+      -- `sem` enumeration of the same grammar
+      let l := if alphabet.length ≤ 2 then l + 2 else l + 1
       match firstDiff g rg pinned alphabet l with
       | some d => some s!"violates: {d}"
       | none => some "holds"
